@@ -225,6 +225,13 @@ def parse_terse(text, names):
             last_thread = m.group(1)
             i += 1
             continue
+        if l.startswith('CBMC failed') or l.startswith('CBMC timed out'):
+            key = cur_by_thread.get(last_thread) if last_thread is not None else single
+            if key and key in res and res[key].status == 'missing':
+                res[key].status = 'timeout'
+                res[key].raw = '\n'.join(lines[i:i + 4])
+            i += 1
+            continue
         if l.startswith('VERIFICATION RESULT:'):
             key = cur_by_thread.get(last_thread) if last_thread is not None else single
             j = i
@@ -463,6 +470,8 @@ def _run_jit(prop, tier, seed, Ob):
         return [o], info0
     encs = encodings() if tier == 'thorough' else jit_quick_subset(seed)
     names = [enc_name('j', b0, cb) for (b0, cb) in encs]
+    if os.environ.get('VERIF_ONLY'):
+        names = [n for n in os.environ['VERIF_ONLY'].split(',') if n.startswith('j_')]   # experiments only
     bad = [n for n in names if not tinfo.get(n, '').startswith('ok')]
     good = [n for n in names if n not in bad]
     results, info = run_harnesses('jit', 'h_jit', good, 300 if tier == 'quick' else 1500, module='jit')
